@@ -55,6 +55,9 @@ def make_history(base, cfg, r, n_commits=None, kind=None):
                              "passive_checkpoint", "grow_shrink", "header_pragmas"])
     h.kind = kind
     ps = cfg["page_size"]
+    if kind == "rootmove":
+        cfg = dict(cfg, auto_vacuum=1)
+        h.cfg = cfg
     con = F.connect(work, dict(cfg, journal_mode="WAL"))
     con.execute("PRAGMA wal_autocheckpoint=0")
     con.execute("PRAGMA synchronous=OFF")
@@ -65,11 +68,17 @@ def make_history(base, cfg, r, n_commits=None, kind=None):
     alias = r.random() < 0.4
     cols = [f"c{i}" for i in range(ncols)]
     decl = ["c0 INTEGER PRIMARY KEY" if alias else "c0 INTEGER"] + [f"c{i} {r.choice(['TEXT', 'BLOB', '', 'REAL'])}" for i in range(1, ncols)]
+    if kind == "rootmove":
+        # a victim table with a lower root page: dropping it under auto_vacuum moves t0's root page
+        con.execute("CREATE TABLE victim (x, y)")
+        con.execute("INSERT INTO victim VALUES (1, 'v')")
     con.execute(f"CREATE TABLE t0 ({', '.join(decl)})")
     tables["t0"] = (cols, alias)
-    if r.random() < 0.5:
+    if r.random() < 0.5 and kind != "rootmove":      # (t0 must own the largest root page to be the one that moves)
         con.execute("CREATE INDEX i0 ON t0 (c1)")
     base_rows = r.choice([0, 5, 40, 120])
+    if kind == "rootmove":
+        base_rows = r.choice([1, 2, 3, 40])      # a single-page table: after the move none of its old pages is rewritten
 
     def ins(n, big=False):
         for _ in range(n):
@@ -79,7 +88,7 @@ def make_history(base, cfg, r, n_commits=None, kind=None):
             con.execute(f"INSERT INTO t0 ({','.join(cols)}) VALUES ({','.join('?' * ncols)})", vals)
 
     con.execute("BEGIN")
-    ins(base_rows, big=r.random() < 0.5)
+    ins(base_rows, big=r.random() < 0.5 and kind != "rootmove")
     if kind == "overflow_inplace":
         for _ in range(3):
             vals = [None if alias else 1] + [bytes(r.randint(0, 255) for _ in range(3 * ps + 17)) for _ in cols[1:]]
@@ -142,6 +151,19 @@ def make_history(base, cfg, r, n_commits=None, kind=None):
                     con.execute(f"DROP TABLE {victims[0]}")
                 else:
                     ins(3)
+        elif op == "rootmove":
+            if k == 0:
+                con.execute("DROP TABLE victim")
+                if r.random() < 0.5:
+                    ins(2)
+            else:
+                which = r.choice(["insert", "update", "delete"])
+                if which == "insert" or not ids:
+                    ins(r.randint(1, 5))
+                elif which == "update":
+                    con.execute(f"UPDATE t0 SET {cols[1]}=? WHERE rowid=?", (F.rand_value(r, ps, big=False), r.choice(ids)))
+                else:
+                    con.execute("DELETE FROM t0 WHERE rowid=?", (r.choice(ids),))
         elif op == "header_pragmas":
             which = r.choice(["user_version", "application_id", "insert", "default_cache_size"])
             if which == "user_version":
